@@ -204,14 +204,31 @@ def transform_fns(D: int) -> List[Fn]:
         "MultiLevel(Translation,Rigid,Affine)": (S.MultiLevelTransform, (S.Translation, S.RigidTransform, S.AffineTransform)),
         "MultiLevel(Affine,FFD)": (S.MultiLevelTransform, (S.AffineTransform, S.FreeFormDeformation)),
     }
-    for name in names + list(composites):
-        cls = composites.get(name) or getattr(S, name, None)
+    # transforms whose parameters are PREDICTED by a module (params=callable): the optimised tensors are that module's weights
+
+    class Pred(torch.nn.Module):
+        def __init__(self, shape):
+            super().__init__()
+            self.w = torch.nn.Parameter(torch.zeros((1,) + tuple(shape), dtype=T64))
+            self.g = torch.nn.Parameter(torch.ones(1, dtype=T64))
+
+        def forward(self, *args, **kwargs):
+            return self.w * self.g + 0.25 * self.w * self.w
+
+    predicted = {f"{n}[predicted]": n for n in ("Translation", "AffineTransform", "DisplacementFieldTransform", "StationaryVelocityFieldTransform",
+                                                "FreeFormDeformation", "StationaryVelocityFreeFormDeformation")}
+    for name in names + list(composites) + list(predicted):
+        cls = composites.get(name) or getattr(S, predicted.get(name, name), None)
         if cls is None or ("Quaternion" in name and D == 2):
             continue
 
         def build(cls=cls, name=name):
             grid = Grid(size=size, spacing=(1.0, 0.8, 1.25)[:D])
-            t = (cls(grid) if not isinstance(cls, tuple) else cls[0](*[m(grid) for m in cls[1]])).double()
+            if name in predicted:
+                probe = cls(grid)
+                t = cls(grid, params=Pred(probe.data_shape)).double()
+            else:
+                t = (cls(grid) if not isinstance(cls, tuple) else cls[0](*[m(grid) for m in cls[1]])).double()
             with torch.no_grad():
                 for i, p in enumerate(t.parameters()):
                     if p.ndim >= 4:  # dense fields / control point grids: smooth
@@ -298,6 +315,9 @@ def functional_fns(D: int) -> List[Fn]:
     add("warp_image", lambda v: (U.warp_image(v[0], grid_t.coords(dtype=T64).unsqueeze(0), flow=U.move_dim(v[1], 1, -1), mode="linear", padding="border") * wI).sum(), [img, flow(31)], ["image", "flow"])
     wF = rnd(1, D, *sp, seed=9)
     add("expv", lambda v: (U.expv(v[0], steps=3) * wF).sum(), [flow(32)], ["velocity"])
+    add("expv[steps=0,scale]", lambda v: (U.expv(v[0], scale=0.5, steps=0) * wF).sum(), [flow(32)], ["velocity"])
+    add("expv[steps=0,inverse]", lambda v: (U.expv(v[0] * 1.0, steps=0, inverse=True) * wF).sum() + (U.expv(v[0], steps=0, inverse=True) * wF).sum(), [flow(32)], ["velocity"])
+    add("expv[steps=2,scale,inverse]", lambda v: (U.expv(v[0], scale=0.7, steps=2, inverse=True) * wF).sum(), [flow(32)], ["velocity"])
     add("compose_flows", lambda v: (U.compose_flows(v[0], v[1]) * wF).sum(), [flow(33), flow(34)], ["u", "v"])
     add("compose_svfs", lambda v: (U.compose_svfs(v[0], v[1], bch_terms=2) * wF).sum(), [flow(35, 0.04), flow(36, 0.04)], ["u", "v"])
     for which in ("jacobian_det", "divergence", "curl") if D == 3 else ("jacobian_det", "divergence"):
@@ -332,13 +352,18 @@ def loss_fns(D: int) -> List[Fn]:
         if not inspect.isfunction(fn) or fn.__module__ != L.__name__ or name.startswith("_") or name in skip:
             continue
         ps = list(inspect.signature(fn).parameters)
-        if ps[:2] == ["input", "target"]:
+        if ps[:2] in (["input", "target"], ["source", "target"], ["logits", "target"]):
             seg = any(s in name for s in ("dice", "tversky", "cross_entropy", "bce", "focal"))
             x, y = (pa, pb) if seg else (a, b)
+            if ps[0] == "logits" or name.endswith("with_logits"):
+                x = smooth_img(D, 43, c=1) * 2 - 2.4
             # the histogram range of the MI losses defaults to the detached data range: give it explicitly (a fixed function of the input)
             kw = dict(vmin=0.0, vmax=2.5) if name in ("mi_loss", "nmi_loss") else {}
             out.append(Fn(f"{name}[{D}D]", lambda fn=fn, x=x, y=y, kw=kw: ((lambda v: as64(fn(v[0], y, **kw).sum())), [x.clone().requires_grad_(True)], ["input"]), "loss:similarity"))
-        elif ps and ps[0] in ("u", "flow", "v"):
+            if not seg:  # symmetric / group-wise use: the target is optimised too
+                out.append(Fn(f"{name}[wrt both][{D}D]", lambda fn=fn, x=x, y=y, kw=kw: ((lambda v: as64(fn(v[0], v[1], **kw).sum())),
+                                                                                         [x.clone().requires_grad_(True), y.clone().requires_grad_(True)], ["input", "target"]), "loss:similarity"))
+        elif ps and ps[0] in ("u", "flow", "v", "data"):
             kw = dict(material_name="bone") if name == "elasticity_loss" and False else (dict(first_parameter=1.0, second_parameter=0.5) if name == "elasticity_loss" else {})
             out.append(Fn(f"{name}[{D}D]", lambda fn=fn, kw=kw: ((lambda v: as64(fn(v[0], **kw).sum())), [fl_.clone().requires_grad_(True)], ["flow"]), "loss:regulariser"))
         elif ps[:2] == ["forward", "inverse"]:
